@@ -39,8 +39,16 @@
           before `q`: C03_HS_prefix_complete (no filter: C03_HS_prefix_complete_nofilter);
         - bucket search: the bucket tuples all have the size of the search and are non-decreasing for
           `Bucket.__lt__`, C03_HS_bucket_sorted; prefix completeness C03_HS_bucket_prefix_complete.
-  NOT proved: recursive grammars (the statement is false there), TTCFGs that thread a state, the
-  unambiguous-grammar machine.
+    * UNAMBIGUOUS-GRAMMAR MACHINE (u_heap_search.py after fix 7721229), section "unambiguous machine":
+        - every heap (non-terminals and the start heap) valid in every reachable state: C03_HS_U_heaps_valid,
+          C03_HS_U_query_heaps, C03_HS_U_pop_max;
+        - acyclic unambiguous grammars with several start symbols and start weights: the order invariant
+          (C03_HS_U_order_step), BEST-FIRST ORDER for every fuel and prefix (C03_HS_U_sorted,
+          C03_HS_U_sorted_prob, C03_HS_U_sorted_probU in terms of `U.probU`; bucket search:
+          C03_HS_U_bucket_sorted), PREFIX COMPLETENESS for every prefix (C03_HS_U_prefix_complete,
+          C03_HS_U_prefix_complete_probU), complete runs: C03_HS_U_more_probable_before.
+  NOT proved: recursive grammars (the statement is false there), TTCFGs that thread a state, thresholds
+  of the unambiguous machine.
 -/
 import PS.Model.Enum.HeapSearch
 import PS.Proofs.Enum.Heapq
